@@ -119,7 +119,7 @@ func ruleC15e(c *Ctx) []*report.Result {
 // the slot after formatting and before the printer is recycled.
 func ruleC15d(c *Ctx) []*report.Result {
 	r := report.NewResult("C15.d", "HelperForErrorf: on its single path the order is newPrinter, wrapErrs=true, doPrintf(format, args), read wrappedErr, take the string, free; the returned error is that read and the returned string is the taken buffer", 5)
-	fn := c.P.Func("internal/rfmt", "HelperForErrorf")
+	fn := c.internalTarget("internal/rfmt", "HelperForErrorf")
 	if fn == nil {
 		r.Undecide("rfmt.HelperForErrorf not found")
 		return []*report.Result{r}
